@@ -65,7 +65,8 @@ def load_registry():
     # harness files mounted inside generated modules of extracted items (module path in the slice crate
     # differs from the path in the real crate: harness names are unique, replay selects by name)
     mounts["h_io_state.rs"] = "io_state::verif_io_state"
-    replay_paths = {"h_io_state.rs": "io::verif_io_state"}
+    mounts["h_v5_pubgate.rs"] = "v5::pubgate::verif_v5_pubgate"
+    replay_paths = {"h_io_state.rs": "io::verif_io_state", "h_v5_pubgate.rs": "v5::dispatcher::verif_v5_pubgate"}
     for hfile, modpath in mounts.items():
         p = os.path.join(HARN, hfile)
         if not os.path.exists(p):
